@@ -347,6 +347,25 @@ def Exec.step {V} (ex : Exec V) (now : Nat) (slice : Slice V) : Exec V :=
     | .ran p' how => ex2.endSlice pid p' how
     | .ranFinished => ex2.popFinished pid
 
+/-- does the slice run the finished block of `Executor::step` (the process ends in this step)? -/
+def Slice.endsProcess {V} : Slice V → Bool
+  | .ranFinished => true
+  | .ran _ (.finishes _) => true
+  | .ran _ (.raises _) => true
+  | .ran _ .finishesEmpty => true
+  | _ => false
+
+/-- Variant `releaseDead` (notes/C06-fixes/01): the finished block ends with `release_dead_roots(current_pid)` —
+    whenever it runs, ALSO in the instruction-less pass of a process that was failed from outside (effect error:
+    result set, frames cleared, re-queued) and is popped with no frames left. A persistent process keeps its
+    mailbox and await state. `ex'` is the executor after the step, `w1` the worker before it. -/
+def Worker.releaseAfterStep {V} (w1 : Worker V) (now : Nat) (slice : Slice V) (ex' : Exec V) : Exec V :=
+  if w1.variant.releaseDead && slice.endsProcess then
+    match (w1.ex.checkExpiredTimeouts now).queue with
+    | pid :: _ => if pid ∈ w1.persistent then ex' else ex'.releaseDead pid
+    | [] => ex'
+  else ex'
+
 /-- `Worker::step`: commands, one executor step, `check_completed_processes`. (`handle_action`
     only extracts and forwards — total here, see the header.) -/
 def Worker.step {V} (w : Worker V) (now : Nat) (cmds : List (Cmd V)) (slice : Slice V) :
@@ -354,7 +373,7 @@ def Worker.step {V} (w : Worker V) (now : Nat) (cmds : List (Cmd V)) (slice : Sl
   match w.handleCommands cmds with
   | .error e => .error e
   | .ok (w1, evs) =>
-    let w2 := { w1 with ex := w1.ex.step now slice }
+    let w2 := { w1 with ex := w1.releaseAfterStep now slice (w1.ex.step now slice) }
     let (w3, evs') := w2.checkCompleted
     .ok (w3, evs ++ evs')
 
